@@ -272,6 +272,10 @@ class MetadorDataset(MetadorNode):
     _self_RO_FORBIDDEN = {"resize", "make_scale", "write_direct", "flush"}
 
     def __getattr__(self, key):
+        if self.acl[NodeAcl.local_only] and key in {"parent", "file"}:
+            # access was refused by the property (the exception is an AttributeError,
+            # so Python falls back to __getattr__) - do not pass through to the raw node
+            self._guard_acl(NodeAcl.local_only, key)
         if self.acl[NodeAcl.read_only] and key in self._self_RO_FORBIDDEN:
             self._guard_acl(NodeAcl.read_only, key)
         if self.acl[NodeAcl.skel_only] and key == "get":
